@@ -18,7 +18,7 @@ func init() {
 			"(X + \".tmp\", os.CreateTemp, a suffix of such a path, or a parameter all of whose callers pass one) and every rename publishes src = dst + \".tmp\"; with C11 this means a final LTX name, the restore output and the TXID sidecar " +
 			"are only ever the target of an atomic rename of a completed, synced file; (R2) DB.Open starts monitoring only after stale .tmp files were removed; (R3) listings ignore names that do not parse as LTX; " +
 			"(R4) DB.Pos caches/returns a non-zero position only after the newest L0 file passed checksum verification; (R5) Replica.syncOnce zeroes its cached position on every error exit so the next sync recomputes it from the remote listing; " +
-			"(R6) every failure exit after a staging opener removes the staged file.",
+			"(R6) every failure exit after a staging opener removes the staged file. R7: every staging file is opened so that a leftover of a killed run is replaced (truncate semantics, never O_EXCL). The follow-mode resume validation accepts every sidecar value a follower can have written (shared with C16-R7, levels 0..8).",
 		NotDecided:  "enumeration of syscall-level kill points against a real file system; SQLite's own crash recovery; atomicity of remote PUTs",
 		Assumptions: []string{"POSIX rename atomicity", "a kill leaves files as the completed syscalls left them"},
 	})
@@ -91,6 +91,9 @@ func tmpProvenance(p *Prog, v ssa.Value, depth int) bool {
 func runC03(c *Ctx) {
 	// R1a rename pairs
 	fsPublicationRules(c, false, true)
+	// a killed follower restarts without manual intervention: the resume validation
+	// accepts every sidecar value the follower can have written (shared with C16)
+	c16Resume(c)
 
 	// R1b who-may-create
 	{
@@ -346,6 +349,9 @@ func runC03(c *Ctx) {
 				continue
 			}
 			n++
+			// R7: a leftover of a killed run must not block the next run: the staging
+			// file is opened so that an existing file of the same name is replaced
+			c03StagingOpen(c, fn, open.(ssa.CallInstruction), rs)
 			// removal sites: deferred closures / deferred calls / explicit calls to os.Remove(src)
 			var deferred []ssa.Instruction
 			explicit := map[*ssa.BasicBlock]bool{}
@@ -414,4 +420,60 @@ func runC03(c *Ctx) {
 		}
 		c.floor(rule, n, 6, "staging sites")
 	}
+}
+
+
+// c03StagingOpen (R7): the staging file of a rename is created with truncate
+// semantics and never with O_EXCL (a SIGKILL leaves the deterministic .tmp
+// name behind; O_EXCL would make every later write of that file fail).
+func c03StagingOpen(c *Ctx, fn *ssa.Function, open ssa.CallInstruction, rs RenameSite) {
+	const rule = "R7-staging-open-replaces-leftover"
+	const oCreate, oExcl, oTrunc = 0x40, 0x80, 0x200
+	var check func(call ssa.CallInstruction, depth int) (decided bool, ok bool, why string)
+	check = func(call ssa.CallInstruction, depth int) (bool, bool, string) {
+		switch calleeName(call) {
+		case "os.Create", "os.WriteFile":
+			return true, true, calleeName(call) + " truncates"
+		case "os.CreateTemp":
+			return true, true, "unique name"
+		case "os.OpenFile", "slot:DB.openLTXFile", "ls.defaultOpenLTXFile":
+			fl, okf := constInt(call.Common().Args[1])
+			if !okf {
+				// flags forwarded by a wrapper: decided at the wrapper's callers
+				return false, false, ""
+			}
+			if fl&oExcl != 0 {
+				return true, false, "opened with O_EXCL: a file left by a killed run makes every later attempt fail"
+			}
+			if fl&oCreate != 0 && fl&oTrunc == 0 {
+				return true, false, "created without O_TRUNC: bytes of a longer leftover survive behind the new content"
+			}
+			return true, true, "O_CREATE|O_TRUNC without O_EXCL"
+		}
+		// a producer helper of P: look at the opener of its path parameter
+		if h := call.Common().StaticCallee(); h != nil && depth < 2 && c.P.InP(h) {
+			for _, k := range calls(h) {
+				if path, creates, ok := openerInfo(k); ok && creates && (path == nil || isParamValue(path)) {
+					if d, okk, why := check(k, depth+1); d {
+						return true, okk, fnName(h) + ": " + why
+					}
+				}
+			}
+		}
+		return false, false, ""
+	}
+	decided, ok, why := check(open, 0)
+	if !decided {
+		return // not a file-creating opener this rule understands (covered by R6/R1)
+	}
+	c.check(ok, rule, fnName(fn)+": staging file "+shortExpr(rs.Src)+" is opened so that a leftover is replaced", c.pos(open), why, why)
+}
+
+func isParamValue(v ssa.Value) bool {
+	for _, o := range origins(v) {
+		if _, ok := o.(*ssa.Parameter); ok {
+			return true
+		}
+	}
+	return false
 }
